@@ -14,7 +14,18 @@ from vlib import Report, tlc, tlc_ok, dlv, write_ndjson, read_ndjson, log
 
 PID = "C20"
 CHUNK = 4000
-CASE_KEYS = ("id", "fam", "files", "top", "rules")
+CASE_KEYS = ("id", "fam", "files", "top", "rules", "inp")
+FILE_FORMS = ("file", "dotfile", "updownfile")
+
+
+def apply_input_form(c):
+    """single-file input forms (MC_Filters!InputForms): the tree of the case is reduced to the file given on the command line"""
+    if c.get("inp") in FILE_FORMS:
+        k = (c.get("fi", 1) - 1) % len(c["files"])
+        c["files"] = [c["files"][k]]
+        if "expect" in c:
+            c["expect"] = [c["expect"][k]]
+    return c
 
 
 def slots_with_filters(c):
@@ -102,7 +113,7 @@ def run(tier):
         raise vlib.ToolError("MC_Filters enumerated only %d cases" % len(cases))
     for k, c in enumerate(cases):
         c["id"] = "c%d" % k
-    # the pool of pattern lists and trees the model used (routing only)
+    # the pool (before the trees of the single-file cases are reduced) of pattern lists and trees the model used (routing only)
     pool, seen, trees, tseen = [], set(), [], set()
     for c in cases:
         for fp in [c["top"]] + c["rules"]:
@@ -117,6 +128,11 @@ def run(tier):
             trees.append(c["files"])
     nrand = 1500 if tier == "quick" else 15000
     rc = random_cases(pool, trees, nrand, rng)
+    for k, c in enumerate(rc):
+        c["inp"] = ("dir", "dotdir", "dir", "file", "dotfile", "updownfile")[k % 6]
+        c["fi"] = 1 + (k // 6) % len(c["files"])
+    cases = [apply_input_form(c) for c in cases]
+    rc = [apply_input_form(dict(c)) for c in rc]
     stats = {k: 0 for k in ("observations", "files", "rule_decisions", "excluded_by_top_level_filter",
                             "excluded_files_without_output (F-C11-a, not a C20 verdict)", "files_with_0_rules", "files_with_1_rules",
                             "files_with_2_rules", "files_with_3_rules")}
